@@ -569,7 +569,11 @@ func (r *runningStep) Close() error {
 	r.cancel()
 	r.wg.Wait()
 	r.logger.Debugf("Closing inputData channel in foreach step provider")
+	// ProvideStageInput checks the closed flag and sends while holding the lock, so the
+	// channel must only be closed under the lock too.
+	r.lock.Lock()
 	close(r.executeInput)
+	r.lock.Unlock()
 	return nil
 }
 
